@@ -452,6 +452,11 @@ class VGen(Gen):
                 return self.atom("str")
             return NONE
         if k == "always":
+            if self.chance(0.12):
+                # anything goes — including an instance of some other dataclass
+                c = self.new_class(1, fields=[["q", None]])
+                return {"t": "inst", "oid": self.oid(), "doid": self.oid(), "cls": c, "names": ["q"],
+                        "vals": [self.atom(self.rng.choice(["int", "str", "none"]))]}
             return self.hostile(2)
         if k == "isDict":
             return {"t": "dict", "oid": self.oid(), "kvs": [[S("k"), I(1)]] if self.chance(0.5) else []}
